@@ -18,7 +18,7 @@ pub open spec fn ord_lawful<K: Ord>() -> bool {
 pub axiom fn axiom_arc_string_ord()
     ensures ord_lawful::<Arc<String>>();
 
-pub axiom fn axiom_btree_set_iter_increasing<'a, K>(it: std::collections::btree_set::Iter<'a, K>)
-    ensures vstd::std_specs::btree::increasing_seq(it.remaining().unref());
+pub broadcast axiom fn axiom_btree_set_iter_increasing<'a, T>(it: std::collections::btree_set::Iter<'a, T>)
+    ensures vstd::std_specs::btree::increasing_seq(#[trigger] it.remaining().unref());
 
 } // verus!
